@@ -474,6 +474,37 @@ theorem Exact.congr {src' : Nat → Bool} (h : ∀ v, v < n → src v = src' v) 
   · left; exact ⟨d, hd, (IsDist.congr h v d).1 hdist⟩
   · right; exact ⟨hm, fun d hw => hun d ((Walk.congr h d v).2 hw)⟩
 
+/-! ### the stable insertion argsort of the model -/
+
+theorem insertBy_perm (key : Nat → Int) (v : Nat) (l : List Nat) : (insertBy key v l).Perm (v :: l) := by
+  induction l with
+  | nil => simp [insertBy]
+  | cons w ws ih =>
+    unfold insertBy
+    split
+    · exact List.Perm.refl _
+    · exact (List.Perm.cons w ih).trans (List.Perm.swap v w ws)
+
+theorem insertBy_sorted (key : Nat → Int) (v : Nat) (l : List Nat)
+    (h : l.Pairwise (fun a b => key a ≤ key b)) : (insertBy key v l).Pairwise (fun a b => key a ≤ key b) := by
+  induction l with
+  | nil => simp [insertBy]
+  | cons w ws ih =>
+    obtain ⟨h1, h2⟩ := List.pairwise_cons.1 h
+    unfold insertBy
+    split
+    · rename_i hvw
+      refine List.pairwise_cons.2 ⟨fun z hz => ?_, h⟩
+      rcases List.mem_cons.1 hz with rfl | hz
+      · exact hvw
+      · exact Int.le_trans hvw (h1 z hz)
+    · rename_i hvw
+      refine List.pairwise_cons.2 ⟨fun z hz => ?_, ih h2⟩
+      have : z ∈ v :: ws := (insertBy_perm key v ws).mem_iff.1 hz
+      rcases List.mem_cons.1 this with rfl | hz'
+      · omega
+      · exact h1 z hz'
+
 /-! ### `findFirst` (the scan used by the executable specification) -/
 
 theorem findFirst_some (f : Nat → Bool) : ∀ (c s d : Nat), findFirst f s c = some d ↔
